@@ -89,6 +89,8 @@ type Ctx struct {
 	pfSigs   map[string]string
 	embTags  int
 	nameSeen map[string]int
+	pureAxDone map[string]bool
+	bridging bool // abstract fields of concrete request/response objects read their struct fields
 }
 
 type Cover struct {
